@@ -169,7 +169,8 @@ func sigRunOne(cfg sigRun, bin, target string, w *vt.Writer) {
 		panic(err)
 	}
 	w.Emit(map[string]interface{}{"ev": "Start", "run": cfg.run, "kind": cfg.kind, "sig": cfg.sig,
-		"after_ms": cfg.afterMs, "q": cfg.q, "rps": cfg.rps, "inst": cfg.inst, "pipe": cfg.pipe, "gomaxprocs": cfg.gmp, "pools": cfg.pools})
+		"after_ms": cfg.afterMs, "q": cfg.q, "rps": cfg.rps, "inst": cfg.inst, "pipe": cfg.pipe, "gomaxprocs": cfg.gmp, "pools": cfg.pools,
+		"inst_total": cfg.pools * ((cfg.inst + cfg.pools - 1) / cfg.pools)})
 	logf, _ := os.Create(filepath.Join(dir, "pandora.log"))
 	defer logf.Close()
 	cmd := exec.Command(bin, confPath)
